@@ -78,6 +78,11 @@ def construct(cls, a):
         genes = [GeneInterval([TranscriptInterval([2 + 3 * i], [9 + 3 * i], Strand.PLUS, transcript_id="c%d" % i)])
                  for i in range(a[2])]
         return AnnotationCollection(genes=genes, start=None if a[0] < 0 else a[0], end=None if a[1] < 0 else a[1])
+    if cls == "PMODEL":
+        from inscripta.biocantor.io.models import ParentModel
+
+        return ParentModel(seq="ACGT", sequence_name="chr" if a[0] else None, start=None if a[1] < 0 else a[1],
+                           end=None if a[2] < 0 else a[2], type="sequence_chunk").to_parent()
     if cls == "PARENT":
         return Parent(id="p", location=SingleInterval(0, a[0], S(a[3])),
                       sequence=Sequence("A" * a[1], Alphabet.NT_STRICT) if a[1] >= 0 else None,
@@ -157,7 +162,7 @@ def _ctor_events(cases):
 def _random_cases(rnd, n):
     out = []
     for _ in range(n):
-        cls = rnd.choice(["SI", "CI", "CDS", "TX", "FEAT", "VAR", "VCOLL", "COLL", "GENE", "SEQ", "PARENT", "CODON", "QPOS", "FSI", "RPOS"])
+        cls = rnd.choice(["SI", "CI", "CDS", "TX", "FEAT", "VAR", "VCOLL", "COLL", "GENE", "SEQ", "PARENT", "CODON", "QPOS", "FSI", "RPOS", "PMODEL"])
         r = lambda lo=-1, hi=12: rnd.randrange(lo, hi)  # noqa: E731
         st = rnd.choice("+-.")
         sl = rnd.choice([-1, -1, 8, 10])
@@ -195,6 +200,9 @@ def _random_cases(rnd, n):
             a = [[[s0, s0 + rnd.randrange(1, 4)] for s0 in (r(0, 9) for _ in range(rnd.randrange(0, 4)))]]
         elif cls == "COLL":
             a = [rnd.choice([-1, 0, 3]), rnd.choice([-1, 20, 40]), rnd.randrange(0, 3)]
+        elif cls == "PMODEL":
+            s0 = rnd.choice([-1, 0, 2])
+            a = [rnd.random() < 0.8, s0, rnd.choice([-1, max(s0, 0) + 4])]
         elif cls == "GENE":
             a = [rnd.randrange(0, 4), rnd.randrange(0, 3), rnd.random() < 0.2]
             if a[1] > a[0]:
